@@ -15,6 +15,9 @@
     every shuffle that is a permutation ([is_shuffle]: the random strategy)
     and every sequence of targets the authoring loop may ask for.
 
+    Build order: after Tx/RefineAll.v (theorem [refinement]) and Tx/InvObs.v,
+    Generated/SelectFacts.v, Select/Eligible.v, Select/EligibleProofs.v.
+
     One regenerated fact is discharged here by computation ([eq_refl]):
     [explicit_selection_rejects_duplicates] (Generated/SelectFacts.v, read
     from wallet/createtx.go by harness/cmd/extract-c06).  While the source
